@@ -12,7 +12,8 @@ from autobean_refactor.models.internal.repeated import Repeated
 CASES = {'quick': 3000, 'thorough': 60000}
 GATES = {
     'quick': {'evaluations': 15000, 'claim_calls': 4000, 'claim_calls_moving_zero_width': 30, 'claim_calls_raising': 300,
-              'attribute_reads': 100000, 'wrapper_reads': 15000, 'deepcopies': 1000, 'comparisons': 1000, 'auto_claim_calls': 800},
+              'attribute_reads': 100000, 'wrapper_reads': 15000, 'deepcopies': 1000, 'comparisons': 1000, 'auto_claim_calls': 800,
+              'pingpong_sequences': 1500},
     'thorough': {'evaluations': 400000, 'claim_calls_moving_zero_width': 4000},
 }
 RULE = ('case = one accepted generated comment-dense document (either attribution mode, half of them in 2..5-token blocks so that claim '
@@ -106,7 +107,7 @@ def run_case(col, r, idx):
         acl = idx % 2 == 1
         P = common.parser()
         prof = gen.Profile(comments=2.0, crlf=(idx % 4 == 1))
-        if idx % 3 == 0:
+        if idx % 3 in (0, 1):
             text, f = gen.accepted_layout(r, P, auto_claim_comments=acl)
         else:
             text, f = gen.accepted_document(r, P, prof, n=r.randint(2, 7), auto_claim_comments=acl)
@@ -138,6 +139,12 @@ def run_case(col, r, idx):
             r.shuffle(pending)
             pending = pending[:30]
             ncalls += len(pending)
+        if idx % 3 != 0:
+            # hand one comment back and forth between its possible owners (claim, unclaim, claim by the neighbour, ...)
+            pending = ops.pingpong_ops(f, r, r.randint(6, 14)) + pending
+            pending.reverse()
+            ncalls += len(pending)
+            col.count('pingpong_sequences')
         for s in range(ncalls):
             nodes = list(walker.walk(f))
             kind = r.choice(['sweep', 'sweep', 'claim', 'claim', 'claim', 'claim', 'auto', 'deepcopy', 'compare', 'print', 'foreign-claim', 'hash'])
